@@ -1,5 +1,6 @@
 import OsuProofs.RotationST
 import OsuProofs.RotationField
+import OsuProofs.RotationST4
 /-
 C09 — source terms, roughness and stress are invariant under joint rotation.
 
@@ -136,5 +137,32 @@ theorem st6_field_rotates (sp : St6P ℝ) (θ0 : ℝ) (om df : List ℝ) (kin : 
   congr 1
   funext j
   simp [rotE]
+
+/-- reading a field of function rows back as lists: rotating the rows is rotating every list -/
+theorem field_rot_as_map (k : Fin N) (D : List (Fin N → ℝ)) :
+    fieldOf (rotField k D) = (fieldOf D).map (fun row => List.ofFn (rotE k (fun j : Fin N => row.getD j 0))) := by
+  simp only [fieldOf, rotField, List.map_map]
+  apply List.map_congr_left
+  intro r _
+  simp only [Function.comp]
+  congr 1
+  funext j
+  simp [rotE]
+
+/-- **whole field, ST4 dissipation** (band-integrated saturation, saturation term with its isotropic
+maximum, cumulative term with its `break` over longer waves, and their sum): the model's
+`st4Dissipation` of the rotated spectrum is the rotated field, for every `N`, `k`, frequency grid,
+kinematics table and parameter set -/
+theorem st4_dissipation_field_rotates (bp : BrkP ℝ) (θ0 : ℝ) (om df : List ℝ) (kin : Kin ℝ)
+    (rows : List (Fin N → ℝ)) (k : Fin N) :
+    st4Dissipation rfloor bp (uniformGrid (N := N) θ0 om df) kin (fieldOf (rotField k rows))
+      = (st4Dissipation rfloor bp (uniformGrid (N := N) θ0 om df) kin (fieldOf rows)).map
+          (fun row => List.ofFn (rotE k (fun j : Fin N => row.getD j 0))) := by
+  rw [st4Dissipation_field, st4Dissipation_field, st4DissRows_rot, field_rot_as_map]
+
+/-- the largest band saturation of a frequency (the isotropic part of the saturation term) does not
+depend on where the directions start -/
+theorem isotropic_exceedance_invariant (bp : BrkP ℝ) (k : Fin N) (b : Fin N → ℝ) :
+    isoExceedance bp (List.ofFn (rotE k b)) = isoExceedance bp (List.ofFn b) := isoExceedance_rot bp k b
 
 end Osu.Props.C09
